@@ -519,6 +519,21 @@ def length_units(ctx, rep):
                                   '%s derives a number of long-name slots from a length in %s (`%s`): a slot holds %d UTF-16 units, '
                                   'so the count is wrong for every name with a non-ASCII character' %
                                   (fn.name, ua, s['span']['snip'][:80], part))
+        # the same through `x.div_ceil(LFN_PART_LEN)`
+        for bi, t in fn.calls():
+            if (t.get('callee') or '').rsplit('::', 1)[-1] == 'div_ceil' and len(t['args']) == 2:
+                pa, cb = op_place(t['args'][0]), op_const(t['args'][1])
+                if pa is None or pa['p'] or cb is None or cb.get('val') != part or tag.get(pa['l']) is None or is_control:
+                    continue
+                ua = tag[pa['l']]
+                nb += 1
+                rep.oblige('N8b', '%s|bb%d' % (fn.name, bi), ok=ua == 'utf16-units', nontrivial=True,
+                           sample={'fn': fn.name, 'at': fn.loc(t['span']), 'unit': ua})
+                if ua != 'utf16-units':
+                    rep.violation('N8b', vkey('N8b', fn.name, 'slots', t['span']['snip']), fn.loc(t['span']),
+                                  '%s derives a number of long-name slots from a length in %s (`%s`): a slot holds %d UTF-16 units, '
+                                  'so the count is wrong for every name with a non-ASCII character' %
+                                  (fn.name, ua, t['span']['snip'][:80], part))
     rep.counts['N8.pairs'] = n
     rep.counts['N8b.sites'] = nb
     rep.oblige('N8.scan', 'fatfs', ok=True)
